@@ -99,6 +99,8 @@ def same_udict(a, b):
 
 def tiny_data(state, n):
     data = torch.tensor([R.index_to_row(k % (2 ** n), n) for k in range(4)], dtype=torch.double)
+    data[1] = 0.0      # rotated rows use the all-zeros outcome (generically non-negligible amplitude)
+    data[3] = 0.0
     bases = np.array([["Z"] * n, ["X"] * n, ["Z"] * n, ["Y"] + ["Z"] * (n - 1)])
     return data, bases
 
@@ -142,7 +144,10 @@ def check(case):
                 qucumber.set_random_seed(op["seed"], cpu=True, gpu=False, quiet=True)
                 data, bases = tiny_data(state, spec["n"])
                 kw = {"input_bases": bases} if has_ud else {}
-                state.fit(data, epochs=1, pos_batch_size=2, lr=0.05, **kw)
+                guard, div = gen.divergence_guard()
+                state.fit(data, epochs=1, pos_batch_size=2, lr=0.05, callbacks=[guard], **kw)
+                if div[0]:
+                    return {"nontrivial": False, "excluded": 1, "labels": ["diverged"]}
             elif kind in ("save", "save_again"):
                 if kind == "save_again" and (mi, op["md"]) not in saves_seen:
                     # make it a genuine second save of the same (model, metadata object)
@@ -205,7 +210,10 @@ def check(case):
                 kw = {"input_bases": bases} if has_ud else {}
                 before_md = copy.deepcopy(md)
                 ms = ModelSaver(1, os.path.join(tmp, f"ms{fj}"), "ep{}.pt", save_initial=True, metadata=md)
-                state.fit(data, epochs=2, pos_batch_size=2, lr=0.05, callbacks=[ms], **kw)
+                guard, div = gen.divergence_guard()
+                state.fit(data, epochs=2, pos_batch_size=2, lr=0.05, callbacks=[ms, guard], **kw)
+                if div[0]:
+                    return {"nontrivial": False, "excluded": 1, "labels": ["diverged"]}
                 require(meta_eq(md, before_md), "save:mutates-metadata", "periodic model saving modified the metadata object")
                 got = sorted(os.listdir(os.path.join(tmp, f"ms{fj}")))
                 require(got == ["ep1.pt", "ep2.pt", "epinitial.pt"], "model_saver:files", f"ModelSaver wrote {got}")
